@@ -130,8 +130,8 @@ def run(rep, tier, seed):
         ks = sorted(pick)
         hist['targeted_sites'] = hist.get('targeted_sites', 0) + len(hot)
         for k in ks:
-            pers = rng.chance(1, 3); en = rng.choice([28, 5]); part = rng.chance(1, 4)
-            hist['persistent' if pers else 'one-shot'] += 1; hist['ENOSPC' if en == 28 else 'EIO'] += 1; hist['partial'] += int(part)
+            pers = rng.chance(1, 3); en = rng.choice([28, 5]); part = rng.choice([0, 0, 0, 1, 2])      # 2 = short (successful) write
+            hist['persistent' if pers else 'one-shot'] += 1; hist['ENOSPC' if en == 28 else 'EIO'] += 1; hist['partial'] += int(part == 1); hist['short_write'] = hist.get('short_write', 0) + int(part == 2)
             jobs.append((k3, k2, os.path.join(out, 'f%d_%d' % (h, len(jobs))), opts, ops, batches,
                          '%d:%d:%d:%d' % (k, en, int(pers), int(part)), 'h%d' % h))
     with ThreadPoolExecutor(vlib.NCPU) as ex:
